@@ -6,6 +6,7 @@ cd /verif/benign || exit 1
 ids=("$@"); [ ${#ids[@]} -eq 0 ] && ids=($(ls))
 run_one() {
   id=$1
+  if python3 -c "import json,sys;sys.exit(0 if json.load(open('/verif/benign/$id/meta.json')).get('superseded') else 1)"; then echo "$id superseded (a later fix rewrote its target; see meta.json)"; return; fi
   out=$(LINES_MAX=3 COLS_MAX=300 /verif/tools/try_benign.sh /verif/benign/$id/patch.diff $id 2>&1)
   if echo "$out" | grep -q "patch failed"; then echo "$id patch no longer applies"; return; fi
   if echo "$out" | grep -q "alarms=0"; then echo "$id quiet"; else echo "$id ALARM: $(echo "$out" | grep -E 'violation\]|^UNDECIDED' | head -2 | cut -c1-200 | tr '\n' ' ')"; fi
